@@ -1,6 +1,12 @@
 HOOK_COMMITS = ["4e6fe67", "2b7356b"]
 NOT_YET = {}
 META = {
+    "C03": {
+        "text": "Theorems over the regenerated ErrorKind::or table and load_from_source loop: closed table, class precedence conv > io > not-found > no-default as rank(or a b) = max, or never invents an error, first readable+decodable extension wins for every extension list and every status of the others, the value is decode(stored bytes, that extension), default_value is handed the fold of all errors (class = highest, one of the actual errors), empty list hands NoDefaultValue; at cache level: a failed Compound::load is Error{own id, reason}, and a failed load of any loader without nested loads (every plain Asset, proved for load_from_source) leaves the cache exactly unchanged.",
+        "design_ref": "DESIGN.md §6 C03",
+        "note": "Trusted: Lean kernel; amx translation of ErrorKind::or (pattern arms → first-match function) and of load_from_source (shape-checked template in CPS); the World model eval as transcription of anycache.rs/asset.rs/key.rs. Tie: Gen/Tables.lean regenerated each run + `load` engine (exhaustive status space per asset type + random) diffed against the model + independent oracle from the status vector.",
+        "technique": "Lean 4 proof over definitions regenerated from source + differential correspondence",
+    },
     "C18": {
         "text": "Theorems over the definitions regenerated from src/entry.rs: update = (max, grew) for ReloadId and AtomicReloadId, NEVER least, every atomic method is a single RMW primitive, and for every linearisation (= every schedule of any number of threads) final = max offered, told-true iff grew, each growth reported exactly once and never lost. Unbounded in values, number of calls and threads.",
         "design_ref": "DESIGN.md §6 C18",
